@@ -37,7 +37,8 @@ def _sig(entry, predicate, **kw):
 # constructor rows
 
 
-CTOR_CALL = {0: "Dist(**values, **fixed)", 1: "Dist(**fixed, **values)", 2: "Dist(*values, **fixed)"}
+CTOR_CALL = {0: "Dist(**values, **fixed)", 1: "Dist(**fixed, **values)", 2: "Dist(*values, **fixed)",
+             3: "Dist(**values, **fixed, f_<free>=None)"}
 
 
 def check_ctor(case):
@@ -53,24 +54,34 @@ def check_ctor(case):
             inst = cls(**vals, **fx)
         elif order == 1:
             inst = cls(**fx, **vals)
+        elif order == 3:
+            inst = cls(**vals, **fx, **{"f_" + params[q]: None for q in range(len(params)) if q not in F})
         else:
             inst = cls(*[arg[p] for p in given], **fx)
     except Exception as e:  # noqa: BLE001
         return [(_sig(name + ".__init__", "raises", call=CTOR_CALL[order]), type(e).__name__ + ": " + str(e)[:100])]
     ps = inst.parameters
+
+    def bits(v):
+        """bit pattern of a stored value; anything that is not a real number (None, ...) equals no given value"""
+        try:
+            return core.f2b(v)
+        except (TypeError, ValueError):
+            return ("not-a-number", repr(v))
+
     for p, pn in enumerate(params):
         fa = getattr(inst, "f_" + pn)
         if p in F:
-            if not (core.f2b(ps[pn]) == core.f2b(farg[p])):
+            if not (bits(ps[pn]) == core.f2b(farg[p])):
                 bad.append((_sig(name + ".__init__", "fixed_wins", call=CTOR_CALL[order]),
                             f"{CTOR_CALL[order]} with f_{pn}={farg[p]!r}, {pn}={arg[p] if p in given else 'default'!r}: "
                             f"parameters[{pn!r}] = {ps[pn]!r}"))
-            if fa is None or core.f2b(fa) != core.f2b(farg[p]):
+            if fa is None or bits(fa) != core.f2b(farg[p]):
                 bad.append((_sig(name + ".__init__", "fixed_remembered", call=CTOR_CALL[order]), f"f_{pn} = {fa!r}"))
         else:
             if fa is not None:
                 bad.append((_sig(name + ".__init__", "free_not_marked_fixed", call=CTOR_CALL[order]), f"f_{pn} = {fa!r}"))
-            if p in given and core.f2b(ps[pn]) != core.f2b(arg[p]):
+            if p in given and bits(ps[pn]) != core.f2b(arg[p]):
                 bad.append((_sig(name + ".__init__", "value_stored", call=CTOR_CALL[order]),
                             f"{pn}={arg[p]!r} given, parameters[{pn!r}] = {ps[pn]!r}"))
     return bad
@@ -79,15 +90,41 @@ def check_ctor(case):
 def run_ctor_rows(ck, rng, n_val):
     for row in TABLES["ctor"]:
         name = row["fam"]
+        if name in sentinel.FAMILY_ERRORS:
+            continue
         for _ in range(n_val):
             case = {"kind": "ctor", "family": name, "given": row["given"], "fixed": row["fixed"], "order": row["order"],
-                    "arg": list(sentinel.random_theta(rng, name).values()),
-                    "farg": list(sentinel.random_theta(rng, name).values())}
+                    "arg": sentinel.random_values(rng, name),
+                    "farg": sentinel.random_values(rng, name)}
             bad = check_ctor(case)
             ck.case(case, nontrivial=bool(row["fixed"]), sample=(len(ck.samples) < 1))
             ck.count("ctor:" + name)
             for sig, detail in bad:
                 ck.fail(sig, case, detail)
+
+
+def observe_unknown_keywords(ck):
+    """Constructor keywords that name no parameter of the family (`nosuch=`, `f_nosuch=`, both together with a real
+    fixed parameter).  C11 speaks about the family's own parameters only, so there is NO verdict on the outcome class;
+    the path is executed and the outcome counted (evidence: input_distribution `observed_no_verdict:...`).  What C11
+    does state is checked: a refused construction must not have been required, an accepted one must still honour the
+    real fixed parameter."""
+    for name, cls, params in sentinel.live_families():
+        farg = sentinel.random_theta(np.random.default_rng(7), name, wide=False)
+        p0 = params[0]
+        for kws in ({"nosuch": 1.5}, {"f_nosuch": 1.5}, {"f_" + p0: farg[p0], "f_nosuch": 1.5}):
+            try:
+                inst = cls(**kws)
+                out = "accepted"
+            except Exception as e:  # noqa: BLE001
+                inst, out = None, type(e).__name__
+            ck.count("observed_no_verdict:ctor_unknown_keyword:" + out)
+            if inst is not None and "f_" + p0 in kws:
+                case = {"kind": "ctor_unknown", "family": name, "kwargs": {k: float(v) for k, v in kws.items()}}
+                ck.case(case, nontrivial=True, sample=False)
+                if core.f2b(inst.parameters[p0]) != core.f2b(farg[p0]):
+                    ck.fail(_sig(name + ".__init__", "fixed_wins", call="Dist(f_<p>=v, f_<unknown>=w)"), case,
+                            f"accepted, but parameters[{p0!r}] = {inst.parameters[p0]!r}, fixed {farg[p0]!r}")
 
 
 # ---------------------------------------------------------------------------
@@ -240,7 +277,8 @@ def base_slots(name):
 
 SCIPY_NAME = {"WeibullDistribution": "weibull_min", "LogNormalDistribution": "lognorm", "NormalDistribution": "norm",
               "ExponentiatedWeibullDistribution": "exponweib", "GeneralizedGammaDistribution": "gengamma",
-              "VonMisesDistribution": "vonmises"}
+              "VonMisesDistribution": "vonmises", "GammaScipyDistribution": "gamma", "BetaScipyDistribution": "beta",
+              "GumbelScipyDistribution": "gumbel_r"}
 
 
 def reference_fit(case, x, before):
@@ -387,7 +425,7 @@ def check_fit(case):
 
 def fit_cases(rng, thorough):
     n_sets = 20 if thorough else 1
-    for name, _, params in TABLES["families"]:
+    for name, _, params in sentinel.live_families():
         k = len(params)
         subs = [F for F in sentinel.subsets(k) if 0 < len(F) < k]
         for F in subs:
@@ -398,8 +436,8 @@ def fit_cases(rng, thorough):
                     if not thorough and kind in ("gamma", "rounded") and rep == 0 and len(F) > 1:
                         continue
                     yield {"kind": "fit", "family": name, "fixed": F,
-                           "farg": list(sentinel.random_theta(rng, name, wide=False).values()),
-                           "theta": list(sentinel.random_theta(rng, name, wide=False).values()),
+                           "farg": sentinel.random_values(rng, name, wide=False),
+                           "theta": sentinel.random_values(rng, name, wide=False),
                            "data": kind, "n": int(rng.choice([500, 2000, 5000])) if thorough else 300,
                            "data_seed": int(rng.integers(0, 2**31))}
 
@@ -409,13 +447,13 @@ ZERO_ADMISSIBLE = {"gamma", "mu", "loc"}  # location-type parameters: the value 
 
 def zero_fixed_cases(rng):
     """boundary stream: a parameter fixed at exactly 0 / 0.0 (falsy in Python) must be honoured like any other"""
-    for name, _, params in TABLES["families"]:
+    for name, _, params in sentinel.live_families():
         for j, pname in enumerate(params):
             if pname not in ZERO_ADMISSIBLE or len(params) < 2:
                 continue
             for zero in (0, 0.0):
-                farg = list(sentinel.random_theta(rng, name, wide=False).values())
-                theta = list(sentinel.random_theta(rng, name, wide=False).values())
+                farg = sentinel.random_values(rng, name, wide=False)
+                theta = sentinel.random_values(rng, name, wide=False)
                 farg[j] = zero
                 theta[j] = 0.4  # data generated away from the fixed value, so that an ignored fixing shows
                 yield {"kind": "fit", "family": name, "fixed": [j], "farg": farg, "theta": theta,
@@ -472,13 +510,13 @@ def run_fits(ck, cases, workers):
 
 
 def lsq_cases(rng, n_cases):
-    for name, _, params in TABLES["families"]:
+    for name, _, params in sentinel.live_families():
         for F in sentinel.subsets(len(params)):
             reps = n_cases if name == "ExponentiatedWeibullDistribution" else 1
             for _ in range(reps):
                 yield {"kind": "lsq", "family": name, "fixed": F,
-                       "farg": list(sentinel.random_theta(rng, name, wide=False).values()),
-                       "theta": list(sentinel.random_theta(rng, name, wide=False).values()),
+                       "farg": sentinel.random_values(rng, name, wide=False),
+                       "theta": sentinel.random_values(rng, name, wide=False),
                        "data": str(rng.choice(["own", "own_other_theta", "weibull", "rounded"])),
                        "n": int(rng.choice([30, 200, 1000])), "data_seed": int(rng.integers(0, 2**31)),
                        "method": str(rng.choice(["lsq", "wlsq"])),
@@ -531,7 +569,7 @@ def check_lsq(case):
 def grammar_check(ck):
     """Model `fitTarget` vs what scipy.stats.<d>.fit accepts and pins (optimizer short-circuited)."""
     dists = sorted({r["outcome"][1] for r in TABLES["fit"] if r["outcome"][0] == "called"} |
-                   {"weibull_min", "lognorm", "norm", "exponweib", "gengamma", "vonmises", "gamma", "beta"})
+                   {"weibull_min", "lognorm", "norm", "exponweib", "gengamma", "vonmises", "gamma", "beta", "gumbel_r"})
     rng = np.random.default_rng(12345)
     lines, todo = [], []
     for dn in dists:
@@ -612,14 +650,22 @@ def main(ck):
         ck.case(case, nontrivial=True, sample=False)
         for sig, detail in check_ctor(case):
             ck.fail(sig, case, detail)
+    for name, (pred, text) in sentinel.FAMILY_ERRORS.items():
+        # no parameter of the family can be declared fixed by its documented name
+        case = {"kind": "family", "family": name}
+        ck.case(case, nontrivial=True, sample=False)
+        ck.fail(_sig(name + ".__init__", pred, call=CTOR_CALL[0]), case, text)
     # (1) tables, concretely
     run_ctor_rows(ck, rng, 3 if thorough else 1)
+    observe_unknown_keywords(ck)
     c05.run_rows(ck, TABLES["get"], rng, 2 if thorough else 1, only_fixed=True)
     for row in TABLES["cond"]:
         name = row["fam"]
+        if name in sentinel.FAMILY_ERRORS:
+            continue
         case = {"kind": "cond", "family": name, "fixed": row["fixed"],
-                "farg": list(sentinel.random_theta(rng, name, wide=False).values()),
-                "dep": list(sentinel.random_theta(rng, name, wide=False).values())}
+                "farg": sentinel.random_values(rng, name, wide=False),
+                "dep": sentinel.random_values(rng, name, wide=False)}
         bad = check_cond(case)
         ck.case(case, nontrivial=True, sample=False)
         ck.count("cond:" + name)
@@ -635,12 +681,12 @@ def main(ck):
         for sig, detail in bad:
             ck.fail(sig, case, detail)
     # (4) ConditionalDistribution.fit
-    for name, _, params in TABLES["families"]:
+    for name, _, params in sentinel.live_families():
         subs = [F for F in sentinel.subsets(len(params)) if 0 < len(F) < len(params)]
         for F in (subs if thorough else subs[:2]):
             case = {"kind": "condfit", "family": name, "fixed": F,
-                    "farg": list(sentinel.random_theta(rng, name, wide=False).values()),
-                    "theta": list(sentinel.random_theta(rng, name, wide=False).values()),
+                    "farg": sentinel.random_values(rng, name, wide=False),
+                    "theta": sentinel.random_values(rng, name, wide=False),
                     "n": 200, "data_seed": int(rng.integers(0, 2**31))}
             bad = check_cond_fit(case)
             ck.case(case, nontrivial=True, sample=False)
@@ -657,7 +703,10 @@ def main(ck):
 def replay(ck, payload):
     case = payload["case"]
     kind = case["kind"]
-    if kind == "ctor":
+    if kind == "family":
+        bad = [(_sig(case["family"] + ".__init__", pred, call=CTOR_CALL[0]), text)
+               for n, (pred, text) in sentinel.FAMILY_ERRORS.items() if n == case["family"]]
+    elif kind == "ctor":
         bad = check_ctor(case)
     elif kind == "fit":
         bad, _ = check_fit(case)
